@@ -438,14 +438,39 @@ func envReloadRound(r *hutil.Rng, pool []string, round int) {
 	for _, id := range []string{id1, id2, id3} {
 		a.WaitDone(id, 30*time.Second)
 	}
+	// a second change that only renames one variable at each level (same number of entries, same values)
+	pe3, te3 := map[string]string{}, map[string]string{}
+	for k, v := range pe2 {
+		pe3[k] = v
+	}
+	for k, v := range te2 {
+		te3[k] = v
+	}
+	pe3["V_G"] = pe3["VA"]
+	delete(pe3, "VA")
+	te3["V9"] = te3["VF"]
+	delete(te3, "VF")
+	defs3 := map[string]PipeDef{"r": {Concurrency: 1, Env: pe3, Tasks: map[string]TaskDef{"a": {Env: te3, Script: append([]string{"true"}, script...)}}}}
+	if err := a.WriteDefs(defs3); err != nil {
+		emit(map[string]interface{}{"kind": "error", "round": round, "what": err.Error()})
+		return
+	}
+	time.Sleep(400 * time.Millisecond)
+	v4 := mkVars("reload-4")
+	id4, _, _ := a.Schedule("r", v4)
+	if id4 == "" {
+		emit(map[string]interface{}{"kind": "error", "round": round, "what": "reload round: schedule after the rename failed"})
+		return
+	}
+	a.WaitDone(id4, 30*time.Second)
 	for j, x := range []struct {
 		id   string
 		pe   map[string]string
 		te   map[string]string
 		vars map[string]interface{}
-	}{{id1, pe1, te1, v1}, {id2, pe1, te1, v2}, {id3, pe2, te2, v3}} {
+	}{{id1, pe1, te1, v1}, {id2, pe1, te1, v2}, {id3, pe2, te2, v3}, {id4, pe3, te3, v4}} {
 		rec := checkTaskEnv(a, pool, baseEnv, round, j, x.id, "r", x.pe, "a", x.te, x.vars)
-		rec["reload"] = []string{"running during reload", "queued during reload", "scheduled after reload"}[j]
+		rec["reload"] = []string{"running during reload", "queued during reload", "scheduled after reload", "scheduled after a reload that only renames variables"}[j]
 		emit(rec)
 	}
 }
